@@ -311,6 +311,59 @@ def work(task):
     return res
 
 
+def ghost_cases():
+    """a piece of code announces something (notify / send) and then fails; the caller catches the error and goes on
+    with the same interpreter: what the failed code announced belongs to the failed call - later calls must deliver
+    exactly what *their* code announces, nothing else.  Every placement of the failing code (action, entry, exit) x
+    what it announced x the placement of the next code that runs."""
+    from sismic.model import Statechart, CompoundState, BasicState, Transition
+    from sismic.exceptions import CodeEvaluationError
+    out, n = [], 0
+    # the failing code is the action of an internal transition: the failed call leaves the configuration as it was
+    for said in ("notify('ghost', n=1)", "send('ghost')", "notify('ghost', n=1); send('ghost2')"):
+        for nxt in ('action', 'on_entry', 'on_exit'):
+            n += 1
+            sc = Statechart('ghost')
+            sc.add_state(CompoundState('root', initial='a'), None)
+            sc.add_state(BasicState('a', on_exit="notify('left_a')" if nxt == 'on_exit' else None), 'root')
+            sc.add_state(BasicState('c', on_entry="notify('in_c')" if nxt == 'on_entry' else None), 'root')
+            sc.add_transition(Transition('a', None, event='boom', action=said + '; x = 1 / 0'))
+            sc.add_transition(Transition('a', 'c', event='next', action="notify('acted')" if nxt == 'action' else None))
+            it = Interpreter(sc)
+            seen = []
+            it.attach(lambda ev: seen.append(ev.name) if ev.name not in DOCUMENTED or ev.name == 'event sent' else None)
+            it.execute_once()
+            it.queue('boom')
+            try:
+                it.execute_once()
+                out.append('case %d (action fails after %s): the failing code did not raise' % (n, said))
+                continue
+            except CodeEvaluationError:
+                pass
+            except Exception as e:
+                out.append('case %d: %s instead of CodeEvaluationError' % (n, type(e).__name__))
+                continue
+            del seen[:]
+            it.queue('next')
+            steps = []
+            try:
+                while True:
+                    st = it.execute_once()
+                    if st is None:
+                        break
+                    steps.append(st)
+            except Exception as e:
+                out.append('case %d (action fails after %s; then %s): the next call raised %s' % (n, said, nxt, type(e).__name__))
+                continue
+            want = {'action': ['acted'], 'on_entry': ['in_c'], 'on_exit': ['left_a']}[nxt]
+            listed = [e.name for s2 in steps for e in s2.sent_events]
+            if seen != want or listed != want or it.configuration != ['root', 'c']:
+                out.append('case %d (action fails after %s; then code in %s): listeners were told %s, the macro steps list %s, '
+                           'the code of these calls announced %s; configuration %s'
+                           % (n, said, nxt, seen, listed, want, it.configuration))
+    return n, out
+
+
 def run(tier, seed):
     t0 = _time.time()
     tasks = []
@@ -335,10 +388,15 @@ def run(tier, seed):
         for v in r['violations']:
             viols.append(harness.Violation('C10:crash', 'C10 %s: %s' % (r['desc'], v['detail']),
                                            {'check': 'C10', 'task': schemes._jsonable(r['task']), **v}))
+    n_ghost, ghosts = ghost_cases()
+    for g in ghosts:
+        viols.append(harness.Violation('C10:ghost', 'C10 announcements of failed code: ' + g,
+                                       {'check': 'C10', 'ghost': True, 'detail': g}))
     tot = collections.Counter()
     for r in results:
         tot.update(r['extra'])
     cov = {
+        'failed_code_cases': n_ghost,
         'programs': agg.programs, 'states': agg.states,
         'transitions': agg.transitions + tot['final_at_runs'],
         'traces_validated_against_impl': tot['clean_runs'] + tot['final_at_runs'],
@@ -359,6 +417,9 @@ def run(tier, seed):
 
 
 def replay(data):
+    if data.get('ghost'):
+        print(ghost_cases())
+        return 0
     task = schemes._tupled(data['task'])
     spec = make_spec(task)
     R0 = engine.Runner(spec, interp_kwargs=IGN if len(task) > 4 and task[4] else None)
